@@ -129,15 +129,21 @@ class WrapScenario(object):
         # optional objects converted with number_from_pyobject (alpha/beta): by convention their local is named 'ao','bo'
         return set(n for n in self.kw if n in ('alpha', 'beta'))
 
+    def read_kwlist(self, ex, st, kwl):
+        from .ir import T
+        names = []; i = 0
+        pt = T('ptr', to=T('int', bits=8))
+        while i < 40:
+            try: p = ex.load(st, pt, Ptr(kwl.region, kwl.off + 8*i))
+            except Unsupported: break
+            if not isinstance(p, Ptr) or p.region is None: break
+            names.append(ex.cstring(p)); i += 1
+        return names
+
     def parse_args(self, ex, st, vals):
         fmt = ex.cstring(vals[2])
         kwl = vals[3]
-        names = []
-        i = 0
-        while True:
-            p = st.mem.get((kwl.region, kwl.off + 8*i))
-            if p is None or p.region is None: break
-            names.append(ex.cstring(p)); i += 1
+        names = self.read_kwlist(ex, st, kwl)
         outs = vals[4:]
         units = []; optional = False
         for ch in fmt.split(':')[0]:
